@@ -69,6 +69,9 @@ typedef struct thrift_decoder {
     int16_t last_field_id[THRIFT_MAX_NESTING];
     int nesting_level;
 
+    /* Depth of nested lists/sets/maps while skipping unknown fields */
+    int container_depth;
+
     /* Boolean field tracking */
     bool bool_pending;
     bool bool_value;
